@@ -40,6 +40,14 @@ def gen(rng, tier):
         if form in ('list', 'arr1'):
             trajs = trajs[:1]
         yield {'trajs': trajs, 'lag': lag, 'iter': rng.random() < 0.6, 'form': form, 'alpha': akind}
+    for _ in range(G.budget(40) if tier == 'quick' else 1500):     # narrow integer types with runs longer than 127 / 255 frames
+        trajs, dtypes, tag = G.narrow_set(rng, 'long-int8')
+        yield {'trajs': trajs, 'lag': rng.choice([2, 2, 3, 5, 9]), 'iter': rng.random() < 0.5, 'form': 'loa', 'alpha': tag, 'dtypes': dtypes}
+    for _ in range(G.budget(30) if tier == 'quick' else 1000):     # the same StateTraj object cored repeatedly
+        labs, akind = G.alphabet(rng, k=rng.randint(2, 4))
+        trajs = [G.traj(rng, labs, rng.randint(8, 40), sticky=0.8) for _ in range(rng.choice([1, 2]))]
+        yield {'trajs': trajs, 'lag': rng.choice([2, 3, 5]), 'iter': rng.random() < 0.5, 'form': 'obj', 'alpha': akind,
+               'pre': [[rng.choice([1, 2, 3, 5, 7]), rng.random() < 0.5] for _ in range(rng.randint(1, 3))]}
 
 
 def corpus():
@@ -76,7 +84,12 @@ def shrink(case):
 def impl(case):
     import msmhelper as mh
     from implutil import build, tolists
-    data = build(case['form'], case['trajs'])
+    data = build(case['form'], case['trajs'], case.get('dtypes'))
+    for tau, it in case.get('pre', []):       # earlier calls on the SAME object must not change later results
+        try:
+            mh.md.dynamical_coring(data, tau, iterative=it)
+        except Exception:  # noqa
+            pass
     r = mh.md.dynamical_coring(data, case['lag'], iterative=case['iter'])
     out = tolists(r.trajs)
     res = {'ok': out, 'ntrajs': int(r.ntrajs)}
